@@ -19,8 +19,9 @@ META = {
                  "pair, canonical state merging, compared step by step with a real local file",
     "text": "Modes {r, r+, w, w+, a, a+, x} x bufsize {-1, 0, 1, 2, 7, 65536} x pipelined {off, on} (quick: 28 of the "
             "84 configurations), all programs up to depth 3 (quick) / 4, and 5 for 28 configurations (thorough) over "
-            "14 (quick) / 18 (thorough) operations read(n)/read()/readline()/readline(n)/readlines()/write/"
-            "seek(SET,CUR,END)/tell/flush/truncate/close on an 8-byte three-line file (absent for w, w+, x), merged "
+            "15 (quick) / 18 (thorough) operations read(n)/read()/readline()/readline(n)/readlines()/write/"
+            "seek(SET,CUR,END)/tell/flush/truncate(shrinking: 2, extending: 12; both in both tiers)/close on an "
+            "8-byte three-line file (absent for w, w+, x), merged "
             "on the complete state of BufferedFile + served file + server handle + reference file; each program is "
             "additionally closed and the final bytes compared.  Returned data, tell(), raise/no-raise, bytes after "
             "flush/close are compared with a real local file running the same program.",
@@ -56,10 +57,10 @@ def alphabet(tier):
     ops = [
         ("read", 1), ("read", 3), ("read", None), ("readline", None), ("readline", 2),
         ("write", W1), ("write", W2), ("seek", 0, 0), ("seek", 1, 1), ("seek", -1, 2),
-        ("tell",), ("flush",), ("truncate", 2), ("close",),
+        ("tell",), ("flush",), ("truncate", 2), ("truncate", 12), ("close",),
     ]
     if tier != "quick":
-        ops += [("read", 0), ("readlines",), ("seek", 2, 0), ("truncate", 12)]
+        ops += [("read", 0), ("readlines",), ("seek", 2, 0)]
     return ops
 
 
